@@ -10,18 +10,39 @@ from .core import HarnessError, import_bits
 from .netsim import Net, SimClock, SocketModule
 
 _p2p = None
+_code = None
 
 
-def p2p_module():
-    global _p2p
+def p2p_module(fresh=False):
+    """fresh=True: every simulated run is a new process as far as bits.p2p is concerned -
+    the module body is executed again in a brand-new module object, so module-level
+    state (caches, buffers) left by an earlier run in this worker cannot leak into
+    this one.  (Only bits.p2p itself is renewed; the pure helpers it imports are not.)"""
+    global _p2p, _code
     if _p2p is None:
         import_bits()
         import bits.p2p as m
 
         _p2p = m
+        with open(m.__file__, "rb") as f:
+            _code = compile(f.read(), m.__file__, "exec")
         S.install_threading_seam([m])
         _warm_up_opcode_tracing()
         logging.disable(logging.CRITICAL)
+    if fresh:
+        import types
+
+        old = _p2p
+        m = types.ModuleType(old.__name__)
+        m.__file__ = old.__file__
+        m.__package__ = old.__package__
+        m.__spec__ = old.__spec__
+        m.__loader__ = getattr(old, "__loader__", None)
+        exec(_code, m.__dict__)
+        sys.modules[old.__name__] = m
+        sys.modules["bits"].p2p = m
+        S.patch_modules([m])
+        _p2p = m
     return _p2p
 
 
